@@ -77,6 +77,7 @@ func runC19(c *Ctx) {
 	// a handshake must not write into its (shared) configuration
 	configReadOnlyRules(c, "C19")
 	pooledEscapeRules(c, "C19")
+	sharedErrorRules(c, "C19")
 }
 
 func c19Globals(c *Ctx) {
